@@ -6,8 +6,9 @@ fed key-permuted but equal documents and differently ordered file creation):
   * ExperimentPackage.packageFromLocation + Experiment.experimentFromPackage + validateExperiment on FlowIR
     and DSL 2 packages written to a scratch directory ("pkg" cases; names, edges, environments, resolved
     configurations, memoization hashes),
-and in-process: FlowIR.override_object, ComponentSpecification._memoization_info_to_hash, plus a static scan
-(Python ast) of the anchored files for iteration over unordered sources.
+and in-process: FlowIR.override_object, ComponentSpecification._memoization_info_to_hash, dsl.namespace_to_flowir
+(S5: the loop that rewrites output references, S6: component / environment names; each also on a key-permuted copy
+of the document), plus a static scan (Python ast) of the anchored files for iteration over unordered sources.
 
 "Every process" is represented by: 6 processes (hash seeds 0,1,2,3,random,4; six key orders of every
 document; six creation orders of every file set) on the implementation side, and by "every permutation
@@ -33,6 +34,9 @@ ASSUMPTIONS = [
     'site S5 (sequential str.replace of output references, dsl.py): the reference strings and the data references '
     'that replace them are recomputed by the harness with the real OutputReference.from_str/.split; the loop itself '
     '(order, str.replace) is compared with Det.Model.replace_refs_sorted',
+    'S6 (component / environment naming of namespace_to_flowir) is modelled without oracle from the workflows '
+    '(name, steps mapping, execute list), the component template names and the entry instance; rejections of a '
+    'namespace for reasons outside these fields are not modelled (the generators do not produce them)',
     'YAML documents have no repeated keys (wfk); variable values are str/int/bool',
     'directory listing order is varied through the creation order of the files (tmpfs/ext4 list in an order that '
     'depends on it), not controlled directly',
@@ -1127,7 +1131,13 @@ def run(ctx):
                 '(references, replicas, environments, nested workflows with repeated step names, 0-3 variable files) '
                 'instantiated as an Experiment in the same 6 processes; non-trivial = loads and has >= 2 components.  '
                 'override / memo cases = random nested dictionaries through override_object / '
-                '_memoization_info_to_hash in-process, with key-permuted copies')
+                '_memoization_info_to_hash in-process, with key-permuted copies.  s5 case = one component of a generated '
+                'DSL namespace whose step arguments hold 1-6 output references (plain, with paths, nested inside the path '
+                'of another one): arguments before / after convert_outputreferences_to_datareferences; non-trivial = at '
+                'least two references are replaced.  naming case = DSL namespace with 1-3 nested workflows, step names '
+                'that repeat / collide with de-duplicated names / carry stage prefixes, environments equal up to key order '
+                'and None values, through namespace_to_flowir as generated and key-permuted; non-trivial = converted '
+                'with >= 2 components')
     quick = ctx.tier == 'quick'
     vars_cases = [c for c in corpus_cases() if c['kind'] == 'vars']
     pkg_cases = [c for c in corpus_cases() if c['kind'] == 'pkg']
